@@ -23,6 +23,7 @@ JudgeDestroy(o) ==
   /\ (o.frozen => o.r = "err")          \* the call cannot have completed: it must report the destruction
   /\ \/ o.r = "err" /\ o.err # ""
      \/ o.prog = "quick" /\ Genuine(o)
+     \/ o.rep >= 300 /\ TLE(o)                 \* cancelled first: the kill may have been answered before the loss
      \/ o.prog \in {"open", "ping", "reset", "delete"} /\ o.r = "ok"         \* the file operation had already completed
   /\ o.alive = 0 /\ ~o.init_alive
 Judge(o) == IF o.destroy THEN JudgeDestroy(o) ELSE JudgeCancel(o)
